@@ -25,7 +25,9 @@ Inductive aop :=
 | AWriteError (code : Z) (reason : option bytes)
 | AWriteRedirect (path : bytes) (perm : bool)
 | AWriteJson (rendered : bytes) (code : Z)
-| AAvail.
+| AAvail
+| ANote (v : value)                 (* instrumentation: a handler/middleware logs that it ran *)
+| ADefer (l : list aop).            (* connect a slot to readChannelFinished() that performs l *)
 
 (* transport / scheduler events *)
 Inductive op :=
@@ -34,9 +36,12 @@ Inductive op :=
 Inductive ev :=
 | EHeaders (avail : Z) | EReady (avail : Z) | EFinished (avail : Z) | EWritten (n : Z)
 | ERead (b : bytes) | ETx (b : bytes) | EClose | EAvail (a : Z)
-| ESnap (r : request) (cl : Z) | EDisc | ENoSock | ECrash | EMark (k : Z).
+| ESnap (r : request) (cl : Z) | EDisc | ENoSock | ECrash | EMark (k : Z) | ENote (v : value)
+| ENoOracle.                        (* the case lacks the QUrl answer for this target: case invalid *)
 
-Record pol := { on_headers : list aop; on_ready : list aop; on_finished : list aop }.
+(* the application: what it calls in each slot.  [on_headers] may depend on the parsed request
+   (the server's routing does); [hdr_after] = the observer's headersParsed slot runs after it. *)
+Record pol := { on_headers : request -> list aop; on_ready : list aop; on_finished : list aop; hdr_after : bool }.
 
 (* environment: library version string and the tabulated answers of QUrl *)
 Record env := {
@@ -48,7 +53,8 @@ Record sock := {
   tcp_in : bytes; tcp_open : bool;
   rbuf : bytes; qbuf : bytes; rst : rstate; nread : Z; total : Z;
   wst : wstate; code : Z; reason : bytes; rh : hmap; hrem : Z;
-  dev_open : bool }.
+  dev_open : bool;
+  deferred : list (list aop) }.   (* slots connected to readChannelFinished() by handlers *)
 
 Definition status_reason (c : Z) : bytes :=
   if c =? 200 then B "OK" else if c =? 201 then B "CREATED" else if c =? 202 then B "ACCEPTED"
@@ -64,7 +70,7 @@ Definition init_sock : sock :=
   {| constructed := false; pending_init := false; tcp_in := []; tcp_open := true;
      rbuf := []; qbuf := []; rst := RHeaders; nread := 0; total := -1;
      wst := WNone; code := 200; reason := status_reason 200; rh := []; hrem := 0;
-     dev_open := true |}.
+     dev_open := true; deferred := [] |}.
 
 Definition R := (sock * list ev)%type.
 Definition andthen (r : R) (f : sock -> R) : R :=
@@ -81,19 +87,24 @@ Definition avail (s : sock) : Z :=
 Definition set_read (s : sock) (rb : bytes) (st : rstate) (nr tot : Z) : sock :=
   {| constructed := constructed s; pending_init := pending_init s; tcp_in := tcp_in s; tcp_open := tcp_open s;
      rbuf := rb; qbuf := qbuf s; rst := st; nread := nr; total := tot;
-     wst := wst s; code := code s; reason := reason s; rh := rh s; hrem := hrem s; dev_open := dev_open s |}.
+     wst := wst s; code := code s; reason := reason s; rh := rh s; hrem := hrem s; dev_open := dev_open s; deferred := deferred s |}.
 Definition set_write (s : sock) (w : wstate) (c : Z) (r : bytes) (h : hmap) (hr : Z) : sock :=
   {| constructed := constructed s; pending_init := pending_init s; tcp_in := tcp_in s; tcp_open := tcp_open s;
      rbuf := rbuf s; qbuf := qbuf s; rst := rst s; nread := nread s; total := total s;
-     wst := w; code := c; reason := r; rh := h; hrem := hr; dev_open := dev_open s |}.
+     wst := w; code := c; reason := r; rh := h; hrem := hr; dev_open := dev_open s; deferred := deferred s |}.
 Definition set_tcp (s : sock) (cons pend : bool) (tin : bytes) (topen dopen : bool) : sock :=
   {| constructed := cons; pending_init := pend; tcp_in := tin; tcp_open := topen;
      rbuf := rbuf s; qbuf := qbuf s; rst := rst s; nread := nread s; total := total s;
-     wst := wst s; code := code s; reason := reason s; rh := rh s; hrem := hrem s; dev_open := dopen |}.
+     wst := wst s; code := code s; reason := reason s; rh := rh s; hrem := hrem s; dev_open := dopen; deferred := deferred s |}.
 Definition set_qbuf (s : sock) (q : bytes) : sock :=
   {| constructed := constructed s; pending_init := pending_init s; tcp_in := tcp_in s; tcp_open := tcp_open s;
      rbuf := rbuf s; qbuf := q; rst := rst s; nread := nread s; total := total s;
-     wst := wst s; code := code s; reason := reason s; rh := rh s; hrem := hrem s; dev_open := dev_open s |}.
+     wst := wst s; code := code s; reason := reason s; rh := rh s; hrem := hrem s; dev_open := dev_open s; deferred := deferred s |}.
+
+Definition set_deferred (s : sock) (d : list (list aop)) : sock :=
+  {| constructed := constructed s; pending_init := pending_init s; tcp_in := tcp_in s; tcp_open := tcp_open s;
+     rbuf := rbuf s; qbuf := qbuf s; rst := rst s; nread := nread s; total := total s;
+     wst := wst s; code := code s; reason := reason s; rh := rh s; hrem := hrem s; dev_open := dev_open s; deferred := d |}.
 
 (* QTcpSocket::write: reaches the wire only while the transport is open *)
 Definition tcp_write (s : sock) (b : bytes) : R :=
@@ -212,6 +223,8 @@ Definition apply_aop (e : env) (s : sock) (a : aop) : R :=
   | AWriteRedirect p perm => write_redirect s p perm
   | AWriteJson d c => write_json s d c
   | AAvail => (s, [EAvail (avail s)])
+  | ANote v => (s, [ENote v])
+  | ADefer l => (set_deferred s (deferred s ++ [l]), [])
   end.
 
 Fixpoint apply_aops (e : env) (s : sock) (l : list aop) : R :=
@@ -229,7 +242,7 @@ Fixpoint lookup_url (t : bytes) (tab : list (bytes * (bool * bytes * list (bytes
   | (k, v) :: tab' => if beq k t then Some v else lookup_url t tab'
   end.
 
-(* UTF-8 well-formedness (RFC 3629), NUL excluded *)
+(* UTF-8 well-formedness (RFC 3629), NUL and Unicode noncharacters excluded (QUrl keeps those encoded) *)
 Fixpoint utf8_valid_fuel (fuel : nat) (d : bytes) : bool :=
   match fuel with
   | O => false
@@ -246,15 +259,21 @@ Fixpoint utf8_valid_fuel (fuel : nat) (d : bytes) : bool :=
           else if (N.leb 224 n && N.leb n 239)%bool then
             match r with
             | c1 :: c2 :: r' =>
+                let cp := ((n - 224) * 4096 + (N_of_ascii c1 - 128) * 64 + (N_of_ascii c2 - 128))%N in
                 cont c1 (if N.eqb n 224 then 160 else 128)%N (if N.eqb n 237 then 159 else 191)%N
-                && cont c2 128%N 191%N && utf8_valid_fuel f r'
+                && cont c2 128%N 191%N
+                && negb ((N.leb 64976 cp && N.leb cp 65007) || N.leb 65534 cp)   (* noncharacters *)
+                && utf8_valid_fuel f r'
             | _ => false
             end
           else if (N.leb 240 n && N.leb n 244)%bool then
             match r with
             | c1 :: c2 :: c3 :: r' =>
+                let cp := ((n - 240) * 262144 + (N_of_ascii c1 - 128) * 4096 + (N_of_ascii c2 - 128) * 64 + (N_of_ascii c3 - 128))%N in
                 cont c1 (if N.eqb n 240 then 144 else 128)%N (if N.eqb n 244 then 143 else 191)%N
-                && cont c2 128%N 191%N && cont c3 128%N 191%N && utf8_valid_fuel f r'
+                && cont c2 128%N 191%N && cont c3 128%N 191%N
+                && negb (N.leb 65534 (N.modulo cp 65536))                         (* noncharacters *)
+                && utf8_valid_fuel f r'
             | _ => false
             end
           else false
@@ -308,19 +327,31 @@ Fixpoint qs_insert (k v : bytes) (m : list (bytes * bytes)) : list (bytes * byte
 Definition qs_of_list (l : list (bytes * bytes)) : list (bytes * bytes) :=
   fold_left (fun m kv => qs_insert (fst kv) (snd kv) m) l [].
 
-(* Parser::parsePath *)
-Definition parse_path (e : env) (t : bytes) : option (bytes * list (bytes * bytes)) :=
+(* Parser::parsePath; [None] = the oracle table has no entry for this target *)
+Definition parse_path (e : env) (t : bytes) : option (option (bytes * list (bytes * bytes))) :=
   if in_class t then
     let (p, q) := split_target t in
-    Some (pct_decode p, qs_of_list (match q with Some q' => query_items q' | None => [] end))
+    Some (Some (pct_decode p, qs_of_list (match q with Some q' => query_items q' | None => [] end)))
   else match lookup_url t (url_table e) with
-       | Some (true, p, items) => Some (p, qs_of_list items)
-       | _ => None
+       | Some (true, p, items) => Some (Some (p, qs_of_list items))
+       | Some (false, _, _) => Some None
+       | None => None
        end.
 
 (* ---- read side ------------------------------------------------------------------ *)
 
 Definition truncate_to (b : bytes) (n : Z) : bytes := firstn (Z.to_nat (Z.max n 0)) b.
+
+(* emission of readChannelFinished(): the observer's slot, then the slots handlers connected *)
+Fixpoint run_slots (e : env) (s : sock) (slots : list (list aop)) : R :=
+  match slots with
+  | [] => (s, [])
+  | l :: rest => apply_aops e s l >>= fun s' => run_slots e s' rest
+  end.
+
+Definition fire_finished (e : env) (p : pol) (s : sock) : R :=
+  let slots := deferred s in
+  (s, [EFinished (avail s)]) >>= (fun s1 => apply_aops e s1 (on_finished p)) >>= fun s2 => run_slots e s2 slots.
 
 (* SocketPrivate::readData *)
 Definition read_data (e : env) (p : pol) (s : sock) : R :=
@@ -330,8 +361,7 @@ Definition read_data (e : env) (p : pol) (s : sock) : R :=
    | [] => (s1, [])
    | _ => (s1, [EReady (avail s1)]) >>= fun s2 => apply_aops e s2 (on_ready p)
    end) >>= fun s3 =>
-  if fin then (s3, [EFinished (avail s3)]) >>= fun s4 => apply_aops e s4 (on_finished p)
-  else (s3, []).
+  if fin then fire_finished e p s3 else (s3, []).
 
 (* SocketPrivate::readHeaders; the bool is its return value *)
 Definition read_headers (e : env) (p : pol) (s : sock) : bool * R :=
@@ -343,14 +373,18 @@ Definition read_headers (e : env) (p : pol) (s : sock) : bool * R :=
       | Fail => (false, write_error e s 400 None)
       | Ok (m, target, h) =>
           match parse_path e target with
-          | None => (false, write_error e s 400 None)
-          | Some (path, query) =>
+          | None => (false, (s, [ENoOracle]))
+          | Some None => (false, write_error e s 400 None)
+          | Some (Some (path, query)) =>
               let tot := if hm_contains (B "Content-Length") h
                          then to_longlong (hm_value (B "Content-Length") h) else -1 in
               let rest' := if negb (tot =? -1) && (blen rest >? tot) then truncate_to rest tot else rest in
               let s1 := set_read s rest' RData (nread s) tot in
               let rq := {| q_method := m; q_raw := target; q_path := path; q_query := query; q_headers := h |} in
-              (true, (s1, [ESnap rq tot; EHeaders (avail s1)]) >>= fun s2 => apply_aops e s2 (on_headers p))
+              (true,
+               if hdr_after p
+               then apply_aops e s1 (on_headers p rq) >>= fun s3 => (s3, [ESnap rq tot; EHeaders (avail s3)])
+               else (s1, [ESnap rq tot; EHeaders (avail s1)]) >>= fun s2 => apply_aops e s2 (on_headers p rq))
           end
       end
   end.
@@ -390,8 +424,7 @@ Definition on_bytes_written (s : sock) (n : Z) : R :=
   end.
 
 Definition on_read_channel_finished (e : env) (p : pol) (s : sock) : R :=
-  if total s =? -1 then (s, [EFinished (avail s)]) >>= fun s' => apply_aops e s' (on_finished p)
-  else (s, []).
+  if total s =? -1 then fire_finished e p s else (s, []).
 
 Definition step (e : env) (p : pol) (s : sock) (o : op) : R :=
   match o with
